@@ -58,6 +58,11 @@ func (w *Walker) infoOf(fn *ssa.Function) *fnInfo {
 				}
 				if !def[i][*op] {
 					use[i][*op] = true
+				} else if phi, ok := (*op).(*ssa.Phi); ok && phi.Block() == b {
+					// a phi used in its own block is resolved by the edge taken:
+					// it is part of the state at block entry (not propagated to
+					// predecessors, see below)
+					use[i][*op] = true
 				}
 			}
 			if v, ok := in.(ssa.Value); ok {
